@@ -6,4 +6,4 @@ wt=$(mktemp -d /tmp/evp-XXXX); rmdir $wt
 git -C /repo worktree add -q --detach $wt HEAD || exit 2
 git -C $wt apply $patch || { echo "PATCH DOES NOT APPLY"; git -C /repo worktree remove --force $wt; exit 2; }
 cd /verif && VERIF_REPO=$wt ./check $prop quick --budget $budget 2>&1 | grep -v "^KNOWN-FINDING" | cut -c1-300 | tail -${TAIL:-6}
-git -C /repo worktree remove --force $wt; rm -rf /verif/.build-*
+git -C /repo worktree remove --force $wt
